@@ -7,17 +7,19 @@
   script).  All theorems quantify over all input sequences `ops : List Op` from the initial state.
 -/
 import Lumina.Proofs.TxSeq
+import Lumina.Proofs.TxSeqLedger
 import Lumina.Gen.C43
 
 namespace Lumina.Props.C43
-open Lumina.Model.TxSeq Lumina.Proofs.TxSeq
+open Lumina.Model.TxSeq Lumina.Proofs.TxSeq Lumina.Proofs.TxSeqLedger
 
 /-
-  FULL STATEMENT (as ONE theorem it is not proved): "for every input history, the observer's ledger
-  of `Lumina/Spec/C43.lean` (`ledgerStep`, the checker that the correspondence run evaluates on the
-  IMPLEMENTATION's lines) accepts every line the model prints".  What is proved below are the
-  ledger's rules one by one, each for ALL histories / all reachable states, stated on the model's
-  own events:
+  FULL STATEMENT, proved as ONE theorem (`ledger_accepts_every_run`): "for every input history, the observer's ledger
+  of `Lumina/Spec/C43.lean` (`ledgerStep`, the checker that the correspondence run evaluates on the IMPLEMENTATION's
+  lines) accepts every line the model prints".  It rests on the bookkeeping equality between the ledger's own maps
+  (`believed`, `lastSigned`, `accepted`, `prev`) and the model state (`Rel`, an invariant over arbitrary histories:
+  `ledger_bookkeeping`), i.e. that the ledger CLASSIFIES each answer the way `believedAfter` does.
+  The ledger's rules are also proved one by one on the model's own events (kept: they read more directly):
     * rule "signed with the believed sequence", "advance by one per accepted broadcast", "resync on
       mismatch", "rollback on non-sequence rejection"   — `seq_discipline` (+ `believedAfter`)
     * rule "never re-signed after acceptance"            — `never_resigned`
@@ -25,10 +27,6 @@ open Lumina.Model.TxSeq Lumina.Proofs.TxSeq
     * rule "evicted ⇒ re-broadcast of the accepted transaction" — `evicted_rebroadcast`,
       `rebroadcast_answer_signs_nothing`
     * the message parser behind "resync to the node's expected value" — `extractSequence_grammar`
-  Missing for the single-theorem form: the bookkeeping equalities between the ledger's own maps
-  (`accepted`, `lastSigned`, `prev`) and the model state (`acc`, phases), i.e. that the ledger
-  CLASSIFIES each answer the way `believedAfter` does.  On the implementation side the ledger
-  itself is evaluated on every generated history.
 -/
 
 /-- the message pattern regenerated from `/repo/grpc/src/client.rs` is the one the model parses -/
@@ -143,6 +141,57 @@ theorem extractSequence_grammar (pre ds post : List Char)
   simp [this, digitsVal_eq ds 0 hdig]
 
 example : extractSequence ("rpc error: code = Unknown desc = account sequence mismatch, expected 12, got 10: incorrect account sequence".toList) = some 12 := by
+  decide
+
+/-! ### the single-theorem form -/
+
+/-- **The observer's ledger accepts every run of the client model.**  For EVERY input history `ops` (any number of
+    concurrent submissions, any interleaving, any node answers), replaying `Spec.C43.ledgerStep` from the empty ledger
+    over the lines the model prints — `oLine`: the events of each step in order and, per started submission, its pending
+    request / `wait` / result, sorted by submission (the abstraction the driver's `render`/`parseLine` realise through
+    strings), with the input classified by `oAnswered` (the driver's `oAns`) — never fails: every signature carries the
+    believed sequence, nothing is re-signed after acceptance, every pending broadcast / simulation is the last signed
+    transaction, every status query and re-broadcast is for the byte-identical accepted transaction, an evicted
+    transaction's next request is its re-broadcast. -/
+theorem ledger_accepts_every_run (ops : List Op) : specRun {} {} ops = true :=
+  specRun_ok ops {} {} rel_init y_init wf_init noWrong_init
+
+/-- **The bookkeeping equality, for every history**: the ledger obtained by replaying the run exists (no line is
+    rejected) and its maps are the model's: `believed` = the client's believed sequence (unknown exactly while the
+    account is unknown); `accepted` = the submissions with an accepted broadcast, each with that transaction's id and
+    signed sequence; `lastSigned` of a submission with a broadcast / simulation pending = that transaction (as stored in
+    the table of signed transactions); `prev` = the observed pending requests. -/
+theorem ledger_bookkeeping (ops : List Op) :
+    ∃ l, ledgerRun {} {} ops = some l ∧
+      (l.believed = if (run {} ops).acct.ready then some (run {} ops).seq else none) ∧
+      l.prev = oStates (run {} ops) ∧
+      (∀ j, match (getSub (run {} ops) j).acc with
+        | some k => ∃ tx, l.accepted.lookup j = some tx ∧ tx.id = k ∧ tx.seq = (getSub (run {} ops) j).accSeq
+        | none => l.accepted.lookup j = none) ∧
+      (∀ j k, isTxReq (getSub (run {} ops) j).phase k →
+        ∃ otx tx, l.lastSigned.lookup j = some otx ∧ otx.id = k ∧ (run {} ops).txs[k]? = some tx ∧ otx.seq = tx.seq) := by
+  obtain ⟨l, h1, h2⟩ := ledgerRun_rel ops {} {} rel_init y_init wf_init noWrong_init
+  exact ⟨l, h1, h2.bel, h2.prev, h2.acc, h2.ls⟩
+
+/-- non-vacuity: on the concrete history of `seq_discipline`'s example (two concurrent submissions, a mismatch, an
+    accepted broadcast, a mempool-cache hit, a rejection with rollback, a third submission) the ledger is evaluated
+    (`decide`) and accepts every line; and the ledger is not trivially accepting: the same kind of line with a signature
+    carrying another sequence, or with a pending broadcast of another transaction, is rejected -/
+example :
+    let ops : List Op := [.start 0 (some 100) (some 2), .ans 0 .ok, .ans 0 (.okSeq 7), .start 1 none none,
+      .ans 0 .ok, .ans 1 (.mis 4), .ans 1 (.okEst 4 10), .ans 1 .cache, .ans 1 (.rejected 5), .start 2 (some 1) (some 4)]
+    specRun {} {} ops = true ∧ (ledgerRun {} {} ops).isSome = true := by
+  decide
+
+open Lumina.Spec.C43 in
+example :
+    let l : Ledger := { believed := some 7, prev := [(0, .G)] }
+    (match ledgerStep l none { events := [.sign ⟨0, 8, 100, 50, 0⟩], states := [(0, .B 0)] } with
+     | .ok _ => true | .error _ => false) = false ∧
+    (match ledgerStep l none { events := [.sign ⟨0, 7, 100, 50, 0⟩], states := [(0, .B 1)] } with
+     | .ok _ => true | .error _ => false) = false ∧
+    (match ledgerStep l none { events := [.sign ⟨0, 7, 100, 50, 0⟩], states := [(0, .B 0)] } with
+     | .ok _ => true | .error _ => false) = true := by
   decide
 
 end Lumina.Props.C43
